@@ -12,6 +12,10 @@ PROPS_ENTRY = {'models': ['Model/Layout.v', 'Model/Teardown.v'],
                  'dropping the transport resets the device (true of MmioTransport, PciTransport, SomeTransport - C10/C11 - and of the harness transport): needed for '
                  'VirtIOSound and VirtIO9p, which have no Drop impl (C09_sound_9p_need_transport_reset shows it is needed); the other nine drivers are also proved '
                  'and monitored without it (C09_quiesced_without_reset, monitor 951 with resets = 0).',
+                 'PCI reading (C09_quiesced_pci, monitor 951 mode 2): PciTransport::queue_unset is a deliberate no-op, so for that transport the property is '
+                 'stated and monitored on the event sequence with every queue_unset call removed (quiesced_pci_b): only status 0 or the reset performed by '
+                 'dropping the transport ends `live`. It holds because every driver struct declares `transport` as its first field (dropped before the queues and '
+                 'buffers); C09_pci_needs_transport_first shows a VirtIOBlk with `transport` declared last passes the other readings and fails this one.',
                  'VirtQueue::new is entered with queue_used = false and max_queue_size >= SIZE (the two refusals before any allocation are C06); OwningQueue::new, '
                  'the pre-posting loops and poll_retrieve cannot fail on a fresh queue (C19_new_stocked) and are modelled as infallible; share/unshare cannot fail.',
                  'usage histories are modelled as: any sequence of chains made available / taken back on any queue (which buffers are outstanding is an input, observed '
@@ -73,6 +77,25 @@ SPEC_ENTRY = {'title': 'Teardown and failed construction free each resource once
                'Proofs/TeardownProofs.v',
                'sound_9p_need_transport_reset',
                'VirtIOSound and VirtIO9p have no Drop impl: without the reset at transport drop a plain construct-and-drop already releases live queue memory'),
+              ('C09_quiesced_pci',
+               'Proofs/TeardownProofs.v',
+               'quiesced_drivers_pci',
+               'SECOND SENTENCE on a transport whose queue_unset does nothing (PciTransport): for every driver, layout, fault and usage history the monitor accepts '
+               'the event sequence with all queue_unset calls removed, i.e. nothing registered or outstanding is released between DRIVER_OK and the next reset '
+               '(status 0 or the transport drop). This is where the position of the `transport` field (first) matters'),
+              ('C09_Quiesced_pci',
+               'Proofs/TeardownProofs.v',
+               'drivers_Quiesced_pci',
+               'the same declaratively (Quiesced on the sequence without queue_unset calls: Registered ends only at a reset or a re-registration)'),
+              ('C09_pci_needs_transport_first',
+               'Proofs/TeardownProofs.v',
+               'pci_needs_transport_first',
+               'the PCI monitor is not vacuous and strictly stronger: the life cycle of a VirtIOBlk whose `transport` field is declared last (queue_unset(0), dealloc, '
+               'dealloc, transport drop) is balanced and passes the monitor with and without reset-at-drop, but fails the PCI reading'),
+              ('C09_quiesced_any_program_pci',
+               'Proofs/TeardownProofs.v',
+               'quiesced_any_program_pci',
+               'general form of the PCI statement for any constructor whose abstract runs pass the strict monitor without their queue_unset events'),
               ('C09_quiesced_any_program',
                'Proofs/TeardownProofs.v',
                'quiesced_any_program',
